@@ -10,7 +10,11 @@ CONSTANTS
   HMod = 840
   MaxDuties = 1000
   MaxSubs = 1000
-INVARIANTS TraceTypeOK AllFutureSubscribed AggregatorRuleExact InfoPrefersAggregator EveryAggregatorCommitteeScheduled NoAggregationForPastSlot
+  SPE = 1
+  Ep = 0
+  MaxRefresh = 1000
+  MaxChanges = 1000
+INVARIANTS TraceTypeOK AllFutureSubscribed AggregatorRuleExact InfoPrefersAggregator InfoInForceComplete EveryAggregatorCommitteeScheduled NoAggregationForPastSlot
 CONSTRAINT HWM
 POSTCONDITION TraceAccepted
 CHECK_DEADLOCK FALSE
